@@ -222,6 +222,7 @@ example : MatchesWF 8 0 [(1, 3), (3, 3), (5, 6)] := by simp [MatchesWF]
 example : splitRegex [(1, 3), (3, 3), (5, 6)] [97, 120, 120, 98, 99, 120, 100, 101] = [[97], [98, 99], [100, 101]] := by decide
 example : split (fun (_ : Unit) _ => []) false [32] none [32, 97, 9, 32, 98, 32] = [[97], [98]] := by decide
 example : runeCount [0xC3, 0xA9] = 1 ∧ runeCount [0xFF] = 1 ∧ runeCount [0xC3, 0xA9, 0x78] = 2 := by decide
+example : csvJoin 44 [[]] = [34, 34] ∧ csvJoin 44 [] = [] ∧ csvJoin 44 [[], [97, 44]] = [44, 34, 97, 44, 34] := by decide
 example : floatToInt (.rat 1000001 1) > maxFieldIndex := by decide
 example : floatToInt (.inf false) > maxFieldIndex ∧ floatToInt .nan < 0 := by decide
 
